@@ -401,6 +401,8 @@ def sim_urandom(n):
     sim = core.CURRENT
     if sim is None:
         return bytes(n)
+    if sim.holder() and not sim.aborting:
+        sim.step()      # a yield point: a loop that keeps drawing randomness shows up in the step budget
     return sim.entropy.randbytes(n)
 
 
